@@ -30,7 +30,7 @@ META = {
     "encoded": ["elaborate() of csr.Multiplexer, csr.Decoder, csr.Bridge, csr.Register and field actions, "
                 "csr.EventMonitor, event.Monitor, WishboneCSRBridge, wishbone.Decoder, wishbone.Arbiter, WishboneSRAM, "
                 "gpio.Peripheral", "csr.bus.Multiplexer._Shadow.prepare (termination, by execution)"],
-    "also": 'multiplexers probed before / extended after construction; arbiters with a shared-bus memory map; post-elaboration add() compared with a never-elaborated twin; index-vs-digit register names; symbolic (16-bit vector) shadow-balancing termination harness; degenerate instances (empty decoders/multiplexers/monitors, arbiter without initiators, one pin, two words)',
+    "also": 'multiplexers probed before / extended after construction; arbiters with a shared-bus memory map; post-elaboration add() compared with a never-elaborated twin; index-vs-digit register names; symbolic (16-bit vector) shadow-balancing termination harness; calls that must be refused on maps holding anonymous windows (descriptive refusal, not an internal error); registers that must be refused; degenerate instances (empty decoders/multiplexers/monitors, arbiter without initiators, one pin, two words)',
     "bounds": "a seeded sample of the quick configuration families of C04,C06-C08,C10-C16 (thorough: 4x larger, "
               "from the thorough families) + register bridges over csr.Builder maps with Cluster/Index scopes and "
               "colliding flattened names; two elaborations per instance; miter depth D = 8 frames from reset",
@@ -48,12 +48,20 @@ def configs(tier, seed):
     per = 12 if tier == "quick" else 60
     for fam in FAMILIES:
         mod = importlib.import_module(f"vt.props.{fam}")
-        cfgs = [c for c in mod.configs(tier, seed) if "miter" not in c and not c.get("table") and not c.get("flat")
+        allc = list(mod.configs(tier, seed))
+        cfgs = [c for c in allc if "miter" not in c and not c.get("table") and not c.get("flat")
                 and not c.get("inreg") and c.get("kind") != "eventmap"]
         rnd2 = random.Random(seed + hash(fam) % 1000)
         pick = cfgs if len(cfgs) <= per else rnd2.sample(cfgs, per)
         for c in pick:
             out.append({"fam": fam, "cfg": c})
+        if fam == "c11":
+            # registers that must be REFUSED (a field the register cannot serve): refused descriptively at
+            # construction - or, if accepted after all, they must elaborate like everything else
+            tab = [c for c in allc if c.get("table")]
+            single = [c for c in tab if "leaf" in c["tree"]]
+            for c in single + rnd2.sample([c for c in tab if c not in single], min(12, len(tab) - len(single))):
+                out.append({"fam": fam, "cfg": c})
     # register bridges over builder maps
     scopes = [[], [["c", "blk"]], [["i", 0]], [["c", "x"], ["i", 3]], [["i", 1], ["c", "y"]]]
     names = ["r", "mux", "a__b", "status"]
@@ -85,6 +93,8 @@ def configs(tier, seed):
     for kind in ("csrdec", "wbdec"):
         for i in range(3):
             out.append({"fam": "api", "cfg": {"kind": kind, "n": i + 1}})
+    for what in REFUSALS:
+        out.append({"fam": "refusal", "cfg": {"what": what}})
     # degenerate instances every constructor accepts: nothing attached, a single element, one direction only
     for what in DEGENERATE:
         out.append({"fam": "degenerate", "cfg": {"what": what}})
@@ -155,6 +165,66 @@ def _degenerate():
             "csr-event-monitor-no-events": evmon0, "gpio-one-pin": gpio1, "sram-two-words": sram1,
             "bridge-empty-map": bridge_empty, "wishbone-csr-bridge-minimal": wbcsr_min}
 
+
+def _refusal(what):
+    """A call the library must refuse, made on maps that hold anonymous windows with content (their names are merged
+    into the parent).  Returns the exception (or None if the call was accepted)."""
+    from amaranth_soc import csr, wishbone
+    from amaranth_soc.csr.wishbone import WishboneCSRBridge
+    from amaranth_soc.memory import MemoryMap
+    from .mux import StubReg
+
+    def mux_bus(n, aw=3):
+        mm = MemoryMap(addr_width=aw, data_width=8)
+        mm.add_resource(StubReg(8, "rw"), name=(f"reg{n}",), size=1)
+        return csr.Multiplexer(mm).bus
+
+    dec = csr.Decoder(addr_width=8, data_width=8)
+    a = mux_bus(0)
+    dec.add(a)                                   # anonymous window with content
+    wbdec = wishbone.Decoder(addr_width=8, data_width=8, granularity=8)
+    inner = csr.Decoder(addr_width=4, data_width=8)
+    inner.add(mux_bus(1))
+    br = WishboneCSRBridge(inner.bus)            # wraps the CSR map anonymously
+    wbdec.add(br.wb_bus)
+    try:
+        if what == "csr-add-twice":
+            dec.add(a)
+        elif what == "csr-add-overlap":
+            dec.add(mux_bus(2), addr=0)
+        elif what == "csr-add-name-clash":
+            dec.add(mux_bus(0))                  # register name ('reg0',) is already visible through the anonymous window
+        elif what == "csr-add-out-of-bounds":
+            dec.add(mux_bus(3), addr=1 << 8)
+        elif what == "csr-add-after-freeze":
+            dec.bus.memory_map.freeze()
+            dec.add(mux_bus(4))
+        elif what == "wb-add-twice":
+            wbdec.add(br.wb_bus)
+        elif what == "wb-add-overlap":
+            other = WishboneCSRBridge(mux_bus(5))
+            wbdec.add(other.wb_bus, addr=0)
+        elif what == "wb-add-after-freeze":
+            wbdec.bus.memory_map.freeze()
+            wbdec.add(WishboneCSRBridge(mux_bus(6)).wb_bus)
+        elif what == "map-add-resource-after-freeze":
+            mm = dec.bus.memory_map
+            mm.freeze()
+            mm.add_resource(StubReg(8, "rw"), name=("late",), size=1)
+        elif what == "map-window-into-itself-twice":
+            mm = MemoryMap(addr_width=10, data_width=8)
+            mm.add_window(dec.bus.memory_map)
+            mm.add_window(dec.bus.memory_map)
+        else:
+            raise KeyError(what)
+    except BaseException as e:       # noqa: the kind of exception is the subject
+        return e
+    return None
+
+
+REFUSALS = ["csr-add-twice", "csr-add-overlap", "csr-add-name-clash", "csr-add-out-of-bounds", "csr-add-after-freeze",
+            "wb-add-twice", "wb-add-overlap", "wb-add-after-freeze", "map-add-resource-after-freeze",
+            "map-window-into-itself-twice"]
 
 DEGENERATE = ["mux-empty", "mux-write-only", "mux-read-only", "csr-decoder-empty", "wishbone-decoder-empty",
               "arbiter-no-initiators", "event-monitor-no-events", "csr-event-monitor-no-events", "gpio-one-pin",
@@ -322,6 +392,16 @@ def check(item, out, stats):
     if item.get("shadow"):
         from .c19_shadow import check_shadow
         return check_shadow(item, out, stats)
+    if item.get("fam") == "refusal":
+        out.extra = {"components": 1}
+        e = _refusal(item["cfg"]["what"])
+        if e is None:
+            _violation(out, item, f"accepted:{item['cfg']['what']}", f"C19 a call that must be refused was accepted: {item['cfg']['what']}")
+        elif not is_refusal(e):
+            _violation(out, item, f"internal-error:refusal:{item['cfg']['what']}:{type(e).__name__}:{_site(e)}",
+                       f"C19 a call that must be refused ({item['cfg']['what']}) fails with an internal {type(e).__name__}: "
+                       f"{str(e)[:100]} instead of a descriptive ValueError/TypeError")
+        return
     from ..nir2smt import TS
     out.extra = {"components": 1}
     make = maker(item)
